@@ -652,7 +652,8 @@ BUILDERS = {"lut_mixed": lut_mixed, "shape_out": shape_out, "transpose_perm": tr
 
 # pattern -> (module, builder) of the families defined outside this file
 EXTERNAL = {"near_scale": ("gen_nearscale", "near_scale"), "multi_out_cpu": ("gen_multiout", "multi_out_cpu"),
-            "slice_masks": ("gen_ssmask", "slice_masks"), "rank_sweep": ("gen_ranksweep", "rank_sweep")}
+            "slice_masks": ("gen_ssmask", "slice_masks"), "rank_sweep": ("gen_ranksweep", "rank_sweep"),
+            "io_passthrough": ("gen_iopass", "io_passthrough"), "resize_cascade": ("gen_resizecasc", "resize_cascade")}
 
 
 def build(rng, idx, pattern, variant=None):
